@@ -13,7 +13,7 @@ def short(s, n):
 
 
 rows = []
-for d in sorted(glob.glob(os.path.join(os.path.dirname(__file__), "..", "seeded", "*"))):
+for d in sorted(x for x in glob.glob(os.path.join(os.path.dirname(__file__), "..", "seeded", "*")) if os.path.isdir(x)):
     sid = os.path.basename(d)
     m = json.load(open(os.path.join(d, "meta.json")))
     files = sorted(set(re.findall(r"^\+\+\+ b/(\S+)", open(os.path.join(d, "patch.diff")).read(), re.M)))
